@@ -8,5 +8,6 @@ CONSTANT Pkts = {0, 1, 2, 3, 4, 5, 6, 7, 8}
 CONSTANT MaxFrames = 8
 CONSTANT MaxCalls = 3
 CONSTANT KMax = 8
+CONSTANT Refilters = {0, 1, 2, 9, 12}
 CONSTRAINT Emit
 CHECK_DEADLOCK FALSE
